@@ -86,6 +86,9 @@ func (ex *Exec) harnessIntrinsic(fr *Frame, name string, args []Value, g *T) (Va
 	case "vhCheckPanics":
 		ex.checkPanics = true
 		return nil, FF, true
+	case "vhCheckSharedWrites":
+		ex.checkShared = true
+		return nil, FF, true
 	case "vhPanics":
 		ex.suppress++
 		_, p := ex.dispatch(fr, &ssa.CallCommon{}, args[0], nil, g)
@@ -154,6 +157,11 @@ func (ex *Exec) intrinsic(fr *Frame, fn *ssa.Function, args []Value, env []Value
 	case "(*math/rand.Rand).Intn":
 		ex.stub("(*rand.Rand).Intn(n) = arbitrary value in [0,n)")
 		n := args[1].(*T)
+		if rp, ok := args[0].(Ptr); ok {
+			for _, c := range rp.c {
+				ex.sharedWrite(fr, c.obj, And(g, c.g), "(*rand.Rand).Intn (advances the generator state)")
+			}
+		}
 		ex.addPanic(fr, And(g, Le(n, I(0))), "invalid argument to Intn")
 		vn := ex.freshName("randintn")
 		hi := n.hi - 1
